@@ -418,7 +418,8 @@ fn read_side(ctx: &mut Ctx) {
 fn run_write<Zx: Z>(mode: &str, bufsize: u32, ops: &[W], existing: &[u8], payload: &[u8]) -> Result<(Vec<i64>, Vec<u8>), String> {
     unsafe {
         let fd = memfd_with(existing);
-        libc::lseek(fd, 0, libc::SEEK_END);
+        // the descriptor is handed over at offset 0: in append mode it is the library that moves to the end
+        libc::lseek(fd, 0, libc::SEEK_SET);
         let keep = libc::dup(fd);
         let cmode = CString::new(mode).unwrap();
         crate::mem::g_begin(None, None, 0xCD);
